@@ -59,6 +59,12 @@ CHECKS = {
    text="Witnesses come from the real get_witness/get_smt_value/get_value path under 4 profiles x 2 modes (+ pdr's BMC fall-back), on failing and on safe systems (a witness on a safe system can only be wrong). The solver decides Q1/Q2 over all unpinned values (array cells the witness does not list); structural clauses (lengths, names, order, a value for every input at every step) are checked natively. The quantifier 'every model the solver may return' is enumerated: 2 solvers x 2-3 seeds.",
    design_ref="DESIGN.md section 4 C03",
    note="Trusted: RefUnroll, z3 5.1. For states that keep an init but have no next only Q1 is required (the witness format has no place for their later values)."),
+ "C10": dict(
+   technique="solver-decided unbounded reference reachability vs the real pdr on live solvers: z3 5.1 decides reachability of a bad state on an independent reference unrolling for every depth up to the completeness threshold 2^bits-1 (all executions of a finite system); the real pdr (z3 4.8.12 / cvc5 1.0, generalisation on/off, check-sat-assuming vs push/pop, full-core widening, solver seeds) must answer Success/Fail accordingly, definitely, with a witness that passes the C03 queries",
+   category="translation_validation",
+   text="Per generated bit-vector system (<= 5 state bits quick, <= 7 thorough) the oracle quantifies over all executions of every length up to the completeness threshold. Success with a reachable bad state or Fail without one is a soundness violation; Unknown/Err/panic/no answer that reproduces with a 4x budget violates the definite-answer clause; every Fail witness is validated by Q1/Q2 against the reference.",
+   design_ref="DESIGN.md section 4 C10",
+   note="Trusted: RefUnroll, z3 5.1 (oracle). Solver answer choices are enumerated (2 solvers, seeds, minimal vs full cores), not symbolic. cvc5 configurations are skipped for systems containing constant arrays (cvc5 1.0 limitations). Array states are outside (todo!() in pdr)."),
 }
 ALL = [f"C{i:02d}" for i in range(1, 21)]
 m = {
